@@ -196,15 +196,30 @@ def gen_case(rng, tier, idx):
         pairs = [[0, 1, rng.choice([-0.6, 0.3, 0.8])], [1, 2, rng.choice([0.0, 0.4])]]
         if not is_pd(3, [0, 1, 2], pairs):
             pairs = pairs[:1]
+        if idx % 80 == 79:
+            # four markets, two pairs with correlations of equal size and opposite sign
+            mk.append({"id": 3, "initial": 100.0, "drift": 0.0, "vol": rng.choice([0.001, 0.01])})
+            c = rng.choice([0.5, 0.6])
+            pairs = [[0, 1, c], [2, 3, -c]]
         return {"kind": "stat", "markets": mk, "corr": pairs, "T": 20000, "seed": rng.randrange(1 << 30)}
     n = rng.choice([1, 2, 2, 3, 4, 5])
+    cancelling = idx % 10 == 3
+    if cancelling:
+        n = rng.choice([4, 5])
     mk = []
     for i in range(n):
         mk.append({"id": i, "initial": rng.choice([1.0, 100.0, 512.0, 25000.0]) * rng.choice([1, 1.37]),
                    "drift": rng.choice([0.0, 0.0, 0.001, -0.001, 0.01, -0.01]),
                    "vol": rng.choice([0.0, 0.0005, 0.005, 0.02, 0.05, 0.05, 2e-9, 1e-7])})
+        if cancelling and i < 4 and mk[-1]["vol"] < 1e-4:
+            mk[-1]["vol"] = rng.choice([0.005, 0.02])
     vol_ids = [m["id"] for m in mk if m["vol"] > 0]
     pairs = rand_corr(rng, vol_ids) if rng.random() < 0.7 else []
+    if cancelling:
+        # correlations of opposite sign (and of equal size, or three that add up to zero) between different pairs
+        c = rng.choice([0.5, 0.3, 0.75, 0.9, 0.25])
+        pairs = rng.choice([[[0, 1, c], [2, 3, -c]], [[0, 1, -c], [2, 3, c]], [[0, 1, 0.5], [1, 2, 0.25], [2, 3, -0.75]],
+                            [[0, 2, c], [1, 3, -c]]])
     while pairs and not is_pd(len(vol_ids), vol_ids, pairs):
         pairs.pop()
     # pairs may be written in either orientation
